@@ -153,15 +153,16 @@ func (c *Config) Load() error {
 		return err
 	}
 
-	services, err := c.buildServiceList()
-	if err != nil {
+	// the files and the environment must name a service, as on a fresh start; the services contributed by
+	// plugins are those of the plugins this load enables, not of the ones the previous load had enabled
+	if _, err = c.buildServiceList(nil); err != nil {
 		return err
 	}
-	c.Services = services
 
 	c.plugins = c.ConfigurePlugins()
 
-	return nil
+	c.Services, err = c.buildServiceList(c.plugins)
+	return err
 }
 
 func (c *Config) loadTimeouts(config *TimeoutConfig, name string, defaults TimeoutConfig) error {
@@ -196,7 +197,7 @@ func (c *Config) loadTimeouts(config *TimeoutConfig, name string, defaults Timeo
 	return nil
 }
 
-func (c *Config) buildServiceList() ([]string, error) {
+func (c *Config) buildServiceList(plugins []Plugin) ([]string, error) {
 	serviceSet := map[string]bool{}
 	for _, service := range c.Services {
 		serviceSet[service] = true
@@ -204,7 +205,7 @@ func (c *Config) buildServiceList() ([]string, error) {
 	for _, service := range strings.Fields(os.Getenv("BRAMBLE_SERVICE_LIST")) {
 		serviceSet[service] = true
 	}
-	for _, plugin := range c.plugins {
+	for _, plugin := range plugins {
 		ok, path := plugin.GraphqlQueryPath()
 		if ok {
 			service := c.PrivateHttpAddress(path)
@@ -353,7 +354,7 @@ func (c *Config) ConfigurePlugins() []Plugin {
 // Init initializes the config and does an initial fetch of the services.
 func (c *Config) Init() error {
 	var err error
-	c.Services, err = c.buildServiceList()
+	c.Services, err = c.buildServiceList(c.plugins)
 	if err != nil {
 		return fmt.Errorf("error building service list: %w", err)
 	}
